@@ -394,8 +394,8 @@ func runDriverTrace(res *lib.Result, r *lib.RNG, idx int) (totalCommits, totalTi
 		var runErr error
 		select {
 		case runErr = <-done:
-		case <-time.After(6 * time.Second):
-			runErr = fmt.Errorf("driver.Run did not return 5s after its context was cancelled")
+		case <-time.After(30 * time.Second):
+			runErr = fmt.Errorf("driver.Run did not return 30 s after its context was cancelled")
 		}
 		cancel()
 		rec.mu.Lock()
